@@ -32,7 +32,7 @@ CHEATS = [
     (re.compile(r'\bassume_specification\b'), 'assume_specification'),
     (re.compile(r'\baxiom\s+fn\b'), 'axiom'),
     (re.compile(r'\bassume\s*\('), 'assume'),
-    (re.compile(r'\badmit\s*\('), 'admit'),
+    (re.compile(r'(?<![:\w.])admit\s*\(\s*\)'), 'admit'),    # Verus' `admit()`; not the cache's own function `admit(..)`
     (re.compile(r'\buninterp\s+spec\s+fn\b'), 'uninterpreted spec fn'),
     (re.compile(r'#\[verifier::external\]'), 'external'),
     (re.compile(r'#\[verifier::exec_allows_no_decreases_clause\]'), 'no-decreases'),
